@@ -19,7 +19,18 @@ Inductive c06case :=
    that reads the written request reports through VisitAllCookie (None = it rejected the request) *)
 | CReqCookies (sets : list (bytes * bytes)) (line : bytes) (seen : list (bytes * bytes)) (wire : option (list (bytes * bytes)))
 (* parseRequestCookies on an arbitrary string *)
-| CReqParse (src : bytes) (seen : list (bytes * bytes)).
+| CReqParse (src : bytes) (seen : list (bytes * bytes))
+(* RequestHeader cookie jar under SetCookie / DelCookie / DelAllCookies / Set("Cookie", "k=v; ..."): the jar as
+   VisitAllCookie shows it on the same object, the Cookie header value, what parseRequestCookies reads from it,
+   RequestHeader.Cookie(key) for some keys, and the server's view of the written request *)
+| CReqJar (ops : list jop) (direct : kvs) (line : bytes) (seen : kvs) (peeks : list (bytes * option bytes)) (wire : option kvs)
+(* ResponseHeader cookie jar under SetCookie(cookie) / DelCookie / DelClientCookie / DelAllCookies: normalizePath answers,
+   the operations (cookies as setter sequences), the same operations with the cookie objects' observed state, the jar as
+   VisitAllCookie shows it with Cookie.ParseBytes of every value, and the values a client reads from the written response *)
+| CRespJar (np : list (bytes * bytes)) (ops : list (rjop_src)) (sops : list sjop) (direct : list (bytes * bytes * option cookie))
+           (wire : option (list (bytes * option cookie)))
+with rjop_src := RSSet (cops : list cop) | RSDel (k : bytes) | RSDelClient (k : bytes) | RSDelAll
+with sjop := SJSet (stored : cookie) | SJDel (k : bytes) | SJDelClient (k : bytes) | SJDelAll.
 
 Definition kvs_eqb (a b : kvs) : bool := list_eqb kv_eqb a b.
 
@@ -43,6 +54,16 @@ Definition corr_ok (c : c06case) : bool :=
       let jar := fold_left (fun j kv => jarSetCookie j (fst kv) (snd kv)) sets [] in
       beq (appendRequestCookieBytes [] jar) line && option_eqb kvs_eqb (parseRequestCookies [] line) (Some seen)
   | CReqParse src seen => option_eqb kvs_eqb (parseRequestCookies [] src) (Some seen)
+  | CReqJar ops direct line seen peeks _ =>
+      let jar := jrun ops in
+      kvs_eqb jar direct && beq (appendRequestCookieBytes [] jar) line &&
+      option_eqb kvs_eqb (parseRequestCookies [] line) (Some seen) &&
+      forallb (fun p => option_eqb beq (jarCookie jar (fst p)) (snd p)) peeks
+  | CRespJar np ops _ direct _ =>
+      let f := np_of_table np in
+      let jar := rjrun (map (fun o => match o with RSSet cops => RJSet (crun f cops) | RSDel k => RJDel k
+                                      | RSDelClient k => RJDelClient k | RSDelAll => RJDelAll end) ops) in
+      kvs_eqb jar (map fst direct) && forallb (fun d => parse_matches (ParseBytes (snd (fst d))) (snd d)) direct
   end.
 
 (* ---- the property on the implementation's observables ---- *)
@@ -99,6 +120,34 @@ Definition wire_ok (sets : list (bytes * bytes)) (seen : list (bytes * bytes)) :
   (length seen <=? distinct_keys sets)%nat &&
   forallb (fun kv => existsb (fun e => beq (loose (fst kv)) (loose (fst e))) (map seen_pair (jar_of sets))) seen.
 
+(* the cookies that were set, operation by operation *)
+Fixpoint del_key (j : list (bytes * bytes)) (k : bytes) : list (bytes * bytes) :=
+  match j with [] => [] | kv :: r => if beq k (fst kv) then del_key r k else kv :: del_key r k end.
+Definition sjar_step (j : list (bytes * bytes)) (o : jop) : list (bytes * bytes) :=
+  match o with
+  | JSet k v => assoc_set j (clean k) (clean v)
+  | JDel k => del_key j k
+  | JDelAll => []
+  | JRaw pairs => j ++ pairs        (* the generator only gives token=octets pairs here *)
+  end.
+Definition sjar (ops : list jop) : list (bytes * bytes) := fold_left sjar_step ops [].
+Fixpoint lookup_kv (j : list (bytes * bytes)) (k : bytes) : option bytes :=
+  match j with [] => None | kv :: r => if beq (fst kv) k then Some (snd kv) else lookup_kv r k end.
+
+Fixpoint rs_set (j : list cookie) (c : cookie) : list cookie :=
+  match j with [] => [c] | x :: r => if beq (ck_key c) (ck_key x) then c :: r else x :: rs_set r c end.
+Definition rs_del (j : list cookie) (k : bytes) : list cookie := filter (fun x => negb (beq k (ck_key x))) j.
+Definition deletion_cookie (k : bytes) : cookie := mkCookie (clean k) [] [] [] 1257894000%Z 0 SSDisabled false false false.
+Definition rs_step (j : list cookie) (o : sjop) : list cookie :=
+  match o with
+  | SJSet c => rs_set j c
+  | SJDel k => rs_del j k
+  | SJDelClient k => rs_set (rs_del j k) (deletion_cookie k)
+  | SJDelAll => []
+  end.
+Fixpoint all2 {A B} (f : A -> B -> bool) (a : list A) (b : list B) : bool :=
+  match a, b with [], [] => true | x :: a', y :: b' => f x y && all2 f a' b' | _, _ => false end.
+
 Definition prop_ok (c : c06case) : bool :=
   match c with
   | CCookie _ _ stored impl parsed via =>
@@ -108,4 +157,25 @@ Definition prop_ok (c : c06case) : bool :=
   | CReqCookies sets line seen wire =>
       seen_ok sets seen && match wire with Some w => wire_ok sets w | None => true end
   | CReqParse _ _ => true
+  | CReqJar ops direct line seen peeks wire =>
+      let j := sjar ops in
+      (* the server sees a subsequence of the cookies that are set, read as key=value texts, never more *)
+      subseq kv_eqb seen (map seen_pair j) && (length seen <=? length j)%nat &&
+      forallb (fun p => option_eqb beq (lookup_kv j (fst p)) (snd p)) peeks &&
+      match wire with
+      | Some w => (length w <=? length j)%nat &&
+                  forallb (fun kv => existsb (fun e => beq (loose (fst kv)) (loose (fst e))) (map seen_pair j)) w
+      | None => true
+      end
+  | CRespJar _ _ sops direct wire =>
+      let j := fold_left rs_step sops [] in
+      (* exactly one Set-Cookie per key that is set, each reading back as the cookie last set under that key *)
+      forallb stored_clean j && all2 (fun d s => view_ok s (snd d)) direct j &&
+      match wire with
+      | Some w => (length w <=? length j)%nat &&
+                  forallb (fun vp => match snd vp with
+                                     | Some p => existsb (fun s => view_ok_wire s p) j
+                                     | None => true end) w
+      | None => true
+      end
   end.
